@@ -177,9 +177,12 @@ def _merge(results):
             t["cases"].extend(tuple(c) for c in ent["cases"])
             t["cases"].sort(key=lambda c: c[0])
             del t["cases"][Collector.MAX_PER_KEY:]
-        if r.get("exhaustive") is not None:
-            tot["exhaustive"] = (r["exhaustive"] if tot["exhaustive"] is None
-                                 else (tot["exhaustive"] and r["exhaustive"]))
+        tot["shards"] = tot.get("shards", 0) + 1
+        if r.get("exhaustive"):
+            tot["shards_exhaustive"] = tot.get("shards_exhaustive", 0) + 1
+    # 'exhaustive' only when every shard enumerated its finite sub-domain completely; mixed runs
+    # (enumerated grid + sampled remainder) say so in exhaustive_part
+    tot["exhaustive"] = bool(tot.get("shards")) and tot.get("shards_exhaustive", 0) == tot.get("shards")
     return tot
 
 
@@ -213,8 +216,10 @@ def write_evidence(prop_id, tier, seed, level, tot, rule, assumptions, wall,
         "classes": dict(sorted(tot["classes"].items())),
         "known_finding_hits": known_hits,
     }
-    if tot.get("exhaustive") is not None:
-        cov["exhaustive"] = bool(tot["exhaustive"])
+    cov["exhaustive"] = bool(tot.get("exhaustive"))
+    if tot.get("shards_exhaustive"):
+        cov["exhaustive_part"] = ("%d of %d shards enumerated a finite sub-domain completely (see rule); the other "
+                                  "shards are generated samples" % (tot["shards_exhaustive"], tot.get("shards", 0)))
     for k, v in tot["extra"].items():
         cov[k] = json.loads(canon(v))
     if extra_cov:
